@@ -96,6 +96,8 @@ type n2Client struct {
 	rmSNI   bool                 // call RemoveSNIExtension before building
 	baseID  tls.ClientHelloID
 	omitPsk bool
+	// captured: for src=fp the ClientHello the Fingerprinter was given (handshake message)
+	captured []byte
 }
 
 func n2ParseGroups(s string) ([]tls.KeyShare, []tls.CurveID, error) {
@@ -126,7 +128,7 @@ func n2ParseGroups(s string) ([]tls.KeyShare, []tls.CurveID, error) {
 //	sg=<g>+<g>..        supported_groups list
 //	s<hex>              drop a cipher suite      v<hex>  drop a supported_versions entry
 //	g<dec>              drop a group from supported_groups and key_share
-//	alpn | cc | nosni | noems | noreneg | noticket   remove that extension
+//	alpn | cc | nosni | noems | noreneg | noticket | nosigalgs   remove that extension
 //	reneg=never         keep renegotiation_info on the wire but set the policy to RenegotiateNever
 //	sni=<hex>           set the SNIExtension's ServerName explicitly
 //	only13              supported_versions {1.3}, TLSVersMin = TLSVersMax = 1.3
@@ -183,6 +185,8 @@ func n2ApplyMods(spec *tls.ClientHelloSpec, mods string) error {
 			dropExt(func(e tls.TLSExtension) bool { _, ok := e.(*tls.ExtendedMasterSecretExtension); return ok })
 		case it == "noreneg":
 			dropExt(func(e tls.TLSExtension) bool { _, ok := e.(*tls.RenegotiationInfoExtension); return ok })
+		case it == "nosigalgs":
+			dropExt(func(e tls.TLSExtension) bool { _, ok := e.(*tls.SignatureAlgorithmsExtension); return ok })
 		case it == "noticket":
 			dropExt(func(e tls.TLSExtension) bool { _, ok := e.(*tls.SessionTicketExtension); return ok })
 		case it == "reneg=never":
@@ -324,7 +328,7 @@ func n2ClientFor(in KV) (*n2Client, error) {
 		if err != nil {
 			return nil, fmt.Errorf("fingerprint: %v", err)
 		}
-		cl.id, cl.spec = tls.HelloCustom, spec
+		cl.id, cl.spec, cl.captured = tls.HelloCustom, spec, raw
 	case "rand", "randalpn", "randnoalpn":
 		cl.id = n2RandID(strings.TrimPrefix(in["src"], "rand"), seed)
 		cl.omitPsk = false
@@ -459,6 +463,7 @@ func n2RunProbes(cs tls.ConnectionState, conn *tls.Conn, probes []n2Probe) (pub,
 //	rmext             delete the SNIExtension from uconn.Extensions
 //	extname:<hex>     set the SNIExtension's ServerName
 //	setsni:<hex>      UConn.SetSNI
+//	dropshare:<g>     remove the key share of group g from the KeyShareExtension (supported_groups untouched)
 //	reapply-nosni     apply a fresh copy of the id's spec without SNIExtension (ApplyPreset on a built UConn)
 //	reapply           apply a fresh copy of the id's spec
 func n2PostBuild(u *tls.UConn, cl *n2Client, post string) error {
@@ -479,6 +484,23 @@ func n2PostBuild(u *tls.UConn, cl *n2Client, post string) error {
 		}
 	case strings.HasPrefix(post, "setsni:"):
 		u.SetSNI(string(unhex(post[7:])))
+	case strings.HasPrefix(post, "dropshare:"):
+		// the documented customisation flow: build, then take a key share out of the KeyShareExtension
+		g, err := strconv.Atoi(post[10:])
+		if err != nil {
+			return err
+		}
+		for _, e := range u.Extensions {
+			if x, ok := e.(*tls.KeyShareExtension); ok {
+				var keep []tls.KeyShare
+				for _, k := range x.KeyShares {
+					if int(k.Group) != g {
+						keep = append(keep, k)
+					}
+				}
+				x.KeyShares = keep
+			}
+		}
 	case post == "reapply-nosni" || post == "reapply":
 		spec, err := tls.UTLSIdToSpec(cl.baseID)
 		if err != nil {
@@ -654,6 +676,17 @@ func n2Exec(in KV) string {
 				if err := u.ApplyPreset(cl.spec); err != nil {
 					return err
 				}
+			case "applymods2": // another spec (the id's spec edited by mods2=) applied over the first application
+				spec2, err := tls.UTLSIdToSpec(cl.baseID)
+				if err != nil {
+					return err
+				}
+				if err := n2ApplyMods(&spec2, in["mods2"]); err != nil {
+					return err
+				}
+				if err := u.ApplyPreset(&spec2); err != nil {
+					return err
+				}
 			case "applyfresh": // a fresh copy of the same spec applied over the first application (a caller changing its mind)
 				if cl.spec == nil {
 					return fmt.Errorf("harness: pre=applyfresh needs a custom spec")
@@ -673,7 +706,7 @@ func n2Exec(in KV) string {
 				return fmt.Errorf("harness: bad pre %q", pre)
 			}
 			if post != "" {
-				if pre == "direct" || pre == "apply2" || pre == "applyfresh" {
+				if pre == "direct" || pre == "apply2" || pre == "applyfresh" || pre == "applymods2" {
 					if err := u.BuildHandshakeState(); err != nil {
 						return err
 					}
@@ -919,9 +952,25 @@ var c10Customs = []struct{ id, mods string }{
 	{"Chrome-115_PQ", "ks=G+25497+29+23"},
 	{"Edge-106", "reneg=never,ks=29+24"},
 	{"Safari-16.0", "nosni,ks=29+23"},
+	// no signature_algorithms extension: a TLS 1.2 server signs with the SHA-1 defaults of RFC 5246 7.4.1.4.1
+	{"Chrome-133", "nosigalgs"},
+	{"Firefox-120", "nosigalgs"},
+	{"Chrome-58", "nosigalgs,noems"},
+	{"iOS-12.1", "nosigalgs"},
 	// a TLS 1.3 hello without usable key share asks for a HelloRetryRequest (repaired: used to abort)
 	{"Chrome-133", "ks=none,sg=29+23"},
 	{"Chrome-133", "ks=G,sg=23+24"},
+}
+
+var c10RetrySeqs = []struct{ tag, toks string }{
+	{"respec-hrr", "id=Chrome-133 src=custom mods=ks=29+23,sg=29+23+24 pre=applymods2 mods2=ks=29,sg=29+23+24 smax=0304 curves=23"},
+	{"respec-hrr", "id=Chrome-133 src=custom mods=ks=29+24+25,sg=29+23+24+25 pre=applymods2 mods2=ks=29,sg=29+23+24+25 smax=0304 curves=24"},
+	{"respec-hrr", "id=Chrome-133 src=custom mods=ks=4588+29+25,sg=4588+29+25 pre=applymods2 mods2=ks=4588,sg=4588+29+25 smax=0304 curves=29"},
+	{"respec-hrr", "id=Firefox-120 src=custom mods=g25 pre=applymods2 mods2=ks=29 smax=0304 curves=23"},
+	{"respec-share", "id=Firefox-120 src=custom mods=ks=29 pre=applymods2 mods2=ks=29+23 smax=0304 curves=23"},
+	{"respec-share", "id=Chrome-133 src=custom mods=ks=23,sg=4588+29+23 pre=applymods2 mods2=ks=4588+23,sg=4588+29+23 smax=0304 curves=4588"},
+	{"dropshare-share", "id=Firefox-120 src=parrot smax=0304 curves=29 post=dropshare:23"},
+	{"dropshare-hrr", "id=Chrome-133 src=custom mods=ks=29+23+24,sg=29+23+24 smax=0304 curves=24 post=dropshare:24"},
 }
 
 // open findings of C10 (completeness holes outside the predefined parrots), reproduced on every run
@@ -996,7 +1045,7 @@ func c10Plan(r *Rng, tier string) []n2Case {
 			continue
 		}
 		for _, c := range n2ServerConfigs(ch, true, r, 0) {
-			if strings.HasPrefix(c[0], "cert") || strings.HasPrefix(c[0], "alpn") || strings.HasPrefix(c[0], "s12") {
+			if !strings.Contains(cu.mods, "nosigalgs") && (strings.HasPrefix(c[0], "cert") || strings.HasPrefix(c[0], "alpn") || strings.HasPrefix(c[0], "s12")) {
 				continue
 			}
 			plan = append(plan, n2Case{"custom," + c[0], toks + " " + c[1]})
@@ -1008,6 +1057,24 @@ func c10Plan(r *Rng, tier string) []n2Case {
 						plan = append(plan, n2Case{"custom-" + pre + "," + c[0], toks + " " + c[1] + " pre=" + pre})
 					}
 				}
+			}
+		}
+	}
+	// a HelloRetryRequest for a group whose key share was generated earlier and then taken back: by a second
+	// spec without that share, or by removing the share from the built KeyShareExtension. The retry must use
+	// the key it generates itself, whatever the key set still holds.
+	for _, sq := range c10RetrySeqs {
+		plan = append(plan, n2Case{"seq," + sq.tag, sq.toks})
+	}
+	for _, id := range parrotIDs {
+		name := idName(id)
+		ch, err := n2Inspect("id=" + name + " src=parrot seed=1")
+		if err != nil || !negHas16(ch.vers, 0x0304) {
+			continue
+		}
+		for _, g := range n2Real(ch.shares) {
+			if g == 23 || g == 24 || g == 25 || g == 29 {
+				plan = append(plan, n2Case{"seq,dropshare-hrr", fmt.Sprintf("id=%s src=parrot smax=0304 curves=%d post=dropshare:%d", name, g, g)})
 			}
 		}
 	}
